@@ -79,7 +79,7 @@ func stallScenarios(c *Ctx) []e1Spec {
 	// whatever they do next, while ALL interleavings of the others are explored, with a block that
 	// fails after its hand-off, with a failing shared read, and fault-free
 	for _, ws := range [][]int{{3}, {2, 3}} {
-		mode, budget := pick(c, "cache", "sleep"), pick(c, int64(1)<<13, int64(1)<<16)
+		mode, budget := "cache", pick(c, int64(1)<<13, int64(1)<<16)
 		s := decSpec(fmt.Sprintf("dec j3 4blk+tail block 1 fails after hand-off, waiters %v past their spin budget", ws), 3, 4, 100, mode, -1)
 		s.CorruptBlock, s.CorruptKind = 1, "payload"
 		s.StallThreads, s.StallPolls = ws, budget
